@@ -84,6 +84,14 @@ fn strategy(hostile_docs: bool) -> impl Strategy<Value = Case> {
 	})
 }
 
+#[derive(Clone, Debug, Serialize, Deserialize)]
+pub struct LargeCase {
+	pub base: Case,
+	pub copies: usize,
+	pub doc_len: usize,
+	pub level: u8,
+}
+
 struct Ns;
 
 fn round_trip<const N: usize>(case: &Case, obs: &mut Obs) -> PropResult {
@@ -264,6 +272,55 @@ pub fn run(ctx: &mut Ctx) {
 		obs.label_if(hostile, "comment_needs_escaping");
 		r
 	});
+	// sets and lines beyond the buffer sizes readers and writers like to use: the same laws on a set replicated to
+	// 200-1500 classes (64 KiB - 1 MiB of text), one of whose comments is 20-260 KiB long (one line of text)
+	ctx.run_sub(
+		"large_sets",
+		ctx.tier.pick(96, 2000),
+		|| (strategy(false), 200usize..1500, prop_oneof![Just(0usize), 20_000usize..70_000, 65_000usize..66_500, 66_500usize..260_000], any::<u8>()).prop_map(|(base, copies, doc_len, level)| LargeCase { base, copies, doc_len, level }),
+		|case: &LargeCase, obs: &mut Obs| {
+			let mut big = case.base.clone();
+			let originals: Vec<(String, crate::mapmodel::MClass)> = case.base.m.classes.iter().map(|(k, c)| (k.clone(), c.clone())).collect();
+			if originals.is_empty() {
+				return Ok(());
+			}
+			'outer: for k in 0..case.copies {
+				for (key, c) in &originals {
+					if big.m.classes.len() >= case.copies {
+						break 'outer;
+					}
+					// nested classes keep their outer class: the suffix goes on the outermost name
+					let rename = |s: &str| match s.split_once('$') {
+						Some((outer, rest)) => format!("{outer}_{k}${rest}"),
+						None => format!("{s}_{k}"),
+					};
+					let mut c = c.clone();
+					for n in c.names.iter_mut().flatten() {
+						*n = rename(n);
+					}
+					big.m.classes.insert(rename(key), c);
+				}
+			}
+			if case.doc_len > 0 {
+				let line = "a long comment line with a tab\t, a backslash \\ and some text \u{e4}\u{f6}\u{fc}";
+				let mut doc = String::with_capacity(case.doc_len + 100);
+				while doc.len() < case.doc_len {
+					doc.push_str(line);
+					doc.push('\n');
+				}
+				let first = big.m.classes.values_mut().next().unwrap();
+				match case.level % 3 {
+					1 if !first.fields.is_empty() => first.fields.values_mut().next().unwrap().doc = Some(doc),
+					2 if !first.methods.is_empty() => first.methods.values_mut().next().unwrap().doc = Some(doc),
+					_ => first.doc = Some(doc),
+				}
+			}
+			obs.label(format!("classes>={}", [1000, 500, 200, 0].iter().find(|t| big.m.classes.len() >= **t).unwrap()));
+			obs.label(format!("longest_line:{}", match case.doc_len { 0 => "short", 1..=65_535 => "<64KiB", 65_536..=66_499 => "just_over_64KiB", _ => ">65KiB" }));
+			obs.nontrivial_if(true);
+			dispatch(&big, obs)
+		},
+	);
 	ctx.run_sub(
 		"duplicate_sections_refused",
 		ctx.tier.pick(36000, 600000),
